@@ -650,8 +650,31 @@ pub mod vx_export {
         async fn get_user_data(&self, username: &AkdLabel) -> Result<KeyData, StorageError> { self.fire().await; self.inner.get_user_data(username).await }
         async fn get_user_state(&self, username: &AkdLabel, flag: ValueStateRetrievalFlag) -> Result<ValueState, StorageError> { self.fire().await; self.inner.get_user_state(username, flag).await }
         async fn get_user_state_versions(&self, usernames: &[AkdLabel], flag: ValueStateRetrievalFlag) -> Result<HashMap<AkdLabel, (u64, AkdValue)>, StorageError> {
+            self.fire().await;
             self.inner.get_user_state_versions(usernames, flag).await
         }
+    }
+    /// C12 probe: publish P2 (labels b, e) reads the epoch record, then - before it begins its transaction - another instance over the
+    /// same database completes publish P1 (labels a, z). Returns (P2 result epoch or None, epoch afterwards, P1's label a verifies to
+    /// P1's value afterwards, P2's label b verifies to P2's value afterwards).
+    pub async fn c12_publish_overtaken<TC: Configuration>() -> Result<(Option<u64>, u64, bool, bool), AkdError> {
+        let armed = Arc::new(AtomicBool::new(false));
+        let db = HookDb::<TC> { inner: AsyncInMemoryDatabase::new(), armed: armed.clone(), _tc: std::marker::PhantomData };
+        let dir = Directory::<TC, _, _>::new(StorageManager::new_no_cache(db.clone()), HardCodedAkdVRF {}, AzksParallelismConfig::disabled()).await?;
+        let kv = |k: &str, v: &str| (AkdLabel::from(k), AkdValue::from(v));
+        dir.publish(vec![kv("a", "a1"), kv("b", "b1"), kv("c", "c1")]).await?;
+        armed.store(true, Ordering::SeqCst);
+        let r2 = dir.publish(vec![kv("b", "b2"), kv("e", "e1")]).await;   // P1 = [(a, a-next), (z, z1)] runs inside, at P2's versions read
+        let after = dir.get_epoch_hash().await?;
+        let pk = dir.get_public_key().await?;
+        let check = |name: &'static str, want: &'static str| { let dir = &dir; let pk = &pk; async move {
+            match dir.lookup(AkdLabel::from(name)).await {
+                Ok((proof, eh)) => matches!(lookup_verify::<TC>(pk.as_bytes(), eh.hash(), eh.epoch(), AkdLabel::from(name), proof), Ok(r) if r.value == AkdValue::from(want)),
+                Err(_) => false,
+            } } };
+        let a_ok = check("a", "a-next").await;
+        let b_ok = check("b", "b2").await;
+        Ok((r2.ok().map(|e| e.epoch()), after.epoch(), a_ok, b_ok))
     }
     /// A directory instance (no cache) has published two epochs; while it serves a request (which: 0 lookup, 1 key history), right after
     /// its read of the epoch record, ANOTHER instance over the same database publishes the next epoch. The answer must be an error or
@@ -724,5 +747,73 @@ pub mod vx_export {
             }
         } } }
         Ok(bad)
+    }
+
+    // ---- C12: two publish calls on CLONES of one directory, deterministically interleaved: the database wrapper runs a prepared
+    // future (the other clone's publish) at the first bulk-versions read after it was armed
+    type Pending = Arc<tokio::sync::Mutex<Option<std::pin::Pin<Box<dyn std::future::Future<Output = Option<(u64, crate::Digest)>> + Send>>>>>;
+    #[derive(Clone)]
+    pub struct RunAtReadDb { inner: AsyncInMemoryDatabase, pending: Pending, result: Arc<std::sync::Mutex<Option<Option<(u64, crate::Digest)>>>> }
+    impl RunAtReadDb {
+        async fn fire(&self) {
+            let fut = self.pending.lock().await.take();
+            if let Some(f) = fut { let r = f.await; *self.result.lock().unwrap() = Some(r); }
+        }
+    }
+    #[async_trait::async_trait]
+    impl Database for RunAtReadDb {
+        async fn set(&self, record: DbRecord) -> Result<(), StorageError> { self.inner.set(record).await }
+        async fn batch_set(&self, records: Vec<DbRecord>, state: DbSetState) -> Result<(), StorageError> { self.inner.batch_set(records, state).await }
+        async fn get<St: Storable>(&self, id: &St::StorageKey) -> Result<DbRecord, StorageError> { self.inner.get::<St>(id).await }
+        async fn batch_get<St: Storable>(&self, ids: &[St::StorageKey]) -> Result<Vec<DbRecord>, StorageError> { self.inner.batch_get::<St>(ids).await }
+        async fn get_user_data(&self, username: &AkdLabel) -> Result<KeyData, StorageError> { self.inner.get_user_data(username).await }
+        async fn get_user_state(&self, username: &AkdLabel, flag: ValueStateRetrievalFlag) -> Result<ValueState, StorageError> { self.inner.get_user_state(username, flag).await }
+        async fn get_user_state_versions(&self, usernames: &[AkdLabel], flag: ValueStateRetrievalFlag) -> Result<HashMap<AkdLabel, (u64, AkdValue)>, StorageError> {
+            self.fire().await;
+            self.inner.get_user_state_versions(usernames, flag).await
+        }
+    }
+    pub struct C12Outcome { pub p1: Option<(u64, crate::Digest)>, pub p2: Option<(u64, crate::Digest)>, pub final_epoch: u64, pub audits_ok: bool, pub a_ok: bool, pub b_ok: bool }
+    /// Publish P2 = [(b,b2),(e,e1)] on one clone reads the epoch record; before it begins its transaction, publish P1 = [(a,a2),(z,z1)] on
+    /// ANOTHER CLONE runs to completion. Afterwards: the epochs / hashes both calls returned, the final epoch, whether every returned
+    /// (epoch, hash) pair is still what audit proofs verify against, and whether both calls' values are served.
+    pub async fn c12_overtaken_on_clone<TC: Configuration>(cache: bool) -> Result<C12Outcome, AkdError> {
+        let pending: Pending = Arc::new(tokio::sync::Mutex::new(None));
+        let result = Arc::new(std::sync::Mutex::new(None));
+        let db = RunAtReadDb { inner: AsyncInMemoryDatabase::new(), pending: pending.clone(), result: result.clone() };
+        let st = if cache { StorageManager::new(db.clone(), None, None, None) } else { StorageManager::new_no_cache(db.clone()) };
+        let dir = Directory::<TC, _, _>::new(st, HardCodedAkdVRF {}, AzksParallelismConfig::disabled()).await?;
+        let kv = |k: &str, v: &str| (AkdLabel::from(k), AkdValue::from(v));
+        let h0 = dir.get_epoch_hash().await?.hash();
+        let e1 = dir.publish(vec![kv("a", "a1"), kv("b", "b1"), kv("c", "c1")]).await?;
+        let other = dir.clone();
+        let p1_batch = vec![kv("a", "a2"), kv("z", "z1")];
+        *pending.lock().await = Some(Box::pin(async move { other.publish(p1_batch).await.ok().map(|e| (e.epoch(), e.hash())) }));
+        let p2 = dir.publish(vec![kv("b", "b2"), kv("e", "e1")]).await.ok().map(|e| (e.epoch(), e.hash()));
+        let p1 = result.lock().unwrap().clone().flatten();
+        let fin = dir.get_epoch_hash().await?;
+        // every pair a call returned must be the pair audits verify against
+        let mut hashes = vec![h0, e1.hash()];
+        let mut audits_ok = true;
+        let mut pairs: Vec<(u64, crate::Digest)> = p1.iter().chain(p2.iter()).cloned().collect();
+        pairs.sort_by_key(|p| p.0);
+        for (ep, h) in pairs.iter() {
+            if *ep as usize != hashes.len() { audits_ok = false; break; }   // epochs must be distinct and consecutive
+            hashes.push(*h);
+        }
+        if audits_ok && fin.epoch() as usize + 1 == hashes.len() {
+            match dir.audit(0, fin.epoch()).await {
+                Ok(proof) => { if crate::auditor::audit_verify::<TC>(hashes.clone(), proof).await.is_err() { audits_ok = false; } }
+                Err(_) => audits_ok = false,
+            }
+        } else { audits_ok = false; }
+        let pk = dir.get_public_key().await?;
+        let mut ok = [false, false];
+        for (i, (name, want)) in [("a", "a2"), ("b", "b2")].iter().enumerate() {
+            if let Ok((proof, eh)) = dir.lookup(AkdLabel::from(*name)).await {
+                ok[i] = matches!(lookup_verify::<TC>(pk.as_bytes(), eh.hash(), eh.epoch(), AkdLabel::from(*name), proof), Ok(r) if r.value == AkdValue::from(*want));
+            }
+        }
+        Ok(C12Outcome { p1, p2, final_epoch: fin.epoch(), audits_ok, a_ok: ok[0], b_ok: ok[1] })
     }
 }
